@@ -6,7 +6,7 @@
 use noulith::{Obj, Seq};
 use vharness::*;
 
-const PR: &str = "pr := \\a, b -> [a, b]; lf := \\a, b -> a; rt := \\a, b -> b; fl := \\a, b -> throw \"no\"; idf := \\x -> x";
+const PR: &str = "pr := \\a, b -> [a, b]; lf := \\a, b -> a; rt := \\a, b -> b; fl := \\a, b -> throw \"no\"; idf := \\x -> x; d0 := null; d1 := null; d2 := null; tr := null; mf := null; rs := null; rm := null";
 
 fn key_pool() -> Vec<&'static str> {
     vec![
@@ -124,7 +124,7 @@ impl<'a> Gen<'a> {
             _ => "throw".into(),
         };
         self.push(key.to_string(), &format!("{}; {}", stmt, var), request, rust);
-        self.script.push(stmt.to_string());
+        self.script.push(format!("try {} catch _ -> null", stmt));
     }
 }
 
@@ -157,7 +157,7 @@ fn run_sequence(g: &mut Gen, rng: &mut Rng, n_ops: usize) {
         );
         let var = format!("d{}", vi);
         // if the literal raises (bad key) fall back to an empty dict so that the variable exists
-        let stmt = format!("{} := {}", var, lit);
+        let stmt = format!("{} = {}", var, lit);
         let r = g.interp.eval(&stmt);
         let rust = match r {
             Outcome::Ok(_) => format!("ok {}", g.state(&var)),
@@ -166,9 +166,9 @@ fn run_sequence(g: &mut Gen, rng: &mut Rng, n_ops: usize) {
         };
         g.push("literal".into(), &format!("{}; {}", stmt, var), req, rust.clone());
         if rust.starts_with("ok") {
-            g.script.push(stmt);
+            g.script.push(format!("try {} catch _ -> null", stmt));
         } else {
-            let s2 = format!("{} := {{}}", var);
+            let s2 = format!("{} = {{}}", var);
             g.interp.eval(&s2);
             g.script.push(s2);
         }
@@ -195,7 +195,7 @@ fn run_sequence(g: &mut Gen, rng: &mut Rng, n_ops: usize) {
                 g.script.push(format!("try {} catch _ -> null", stmt));
             }
             5 => {
-                let stmt = format!("rm := try remove {}[{}] catch _ -> \"absent\"", var, k.src);
+                let stmt = format!("rm = try remove {}[{}] catch _ -> \"absent\"", var, k.src);
                 let r = g.interp.eval(&stmt);
                 let removed = g.state("rm");
                 let rust = match r {
@@ -247,7 +247,7 @@ fn run_sequence(g: &mut Gen, rng: &mut Rng, n_ops: usize) {
                     5 => g.observe("group_all", &format!("group_all({}, idf)", l), format!("group {}", lc), true),
                     6 => g.observe("classify", &format!("classify({}, idf)", l), format!("classify {}", lc), false),
                     _ => {
-                        let e = format!("(tr := []; mf := memoize(\\x -> (tr append= x; [x])); rs := {} map mf; [rs, tr])", l);
+                        let e = format!("(tr = []; mf = memoize(\\x -> (tr append= x; [x])); rs = {} map mf; [rs, tr])", l);
                         g.observe("memoize", &e, format!("memo {}", lc), false)
                     }
                 }
